@@ -3,6 +3,7 @@
   word-run scanner.
 -/
 import Ptk.Model.C02
+import Ptk.Model.C02Spec
 namespace Ptk.C02
 open Ptk.Py
 
@@ -313,9 +314,6 @@ theorem walk_spec (inc dec : Char) (hne : inc ≠ dec) (st : Int) (hst : 1 ≤ s
             exact this
 
 /-! ### the word-run scanner -/
-
-/-- class of the character at index `j` (`none` past the end) -/
-def clsAt (cl : Char → Nat) (T : Text) (j : Nat) : Option Nat := T[j]?.map cl
 
 /-- `[s, e)` is a maximal run of one non-zero class in `T` (= one match of the word regex) -/
 def IsRun (cl : Char → Nat) (T : Text) (s e : Nat) : Prop :=
